@@ -324,16 +324,6 @@ Proof. intros [] []. constructor; congruence. Qed.
 Lemma frame_with_db st db : frame st (with_db st db).
 Proof. constructor; reflexivity. Qed.
 
-Lemma set_proc_db st id b : st_db (set_proc st id b) = st_db st.
-Proof. unfold set_proc. destruct (_ =? _); reflexivity. Qed.
-
-Lemma set_proc_frame st id b : frame st (set_proc st id b).
-Proof.
-  unfold set_proc. destruct (i_id (st_cur st) =? id); constructor; try reflexivity.
-  unfold inst_mtus. cbn [st_cur st_dead map]. f_equal. rewrite map_map. apply map_ext.
-  intros j. destruct (i_id j =? id); reflexivity.
-Qed.
-
 Lemma wf_state_frame st st' : frame st st' -> st_db st' = st_db st -> wf_state st = true -> wf_state st' = true.
 Proof.
   intros F Ed H. unfold wf_state, queue_ok in *. rewrite Ed, (fr_mtu _ _ F), (fr_queues _ _ F). exact H.
@@ -384,19 +374,17 @@ Qed.
 Lemma act_out_ok_frame st st' pd : frame st st' -> act_out_ok st' pd -> act_out_ok st pd.
 Proof. intros F. apply act_out_ok_mframe, frame_m, F. Qed.
 
-Lemma notify_via_frame st id o mk vh val : frame st (r_state (notify_via st id o mk vh val)).
-Proof.
-  unfold notify_via. destruct (find_inst st id) as [i|]; [|apply frame_refl].
-  destruct (i_proc_locked i); [apply frame_refl|].
-  destruct o as [|x| | | | |g1 g2 g3|]; try apply frame_refl; apply set_proc_frame.
-Qed.
-
-Lemma notify_via_db st id o mk vh val : st_db (r_state (notify_via st id o mk vh val)) = st_db st.
+Lemma notify_via_state st id o mk vh val : r_state (notify_via st id o mk vh val) = st.
 Proof.
   unfold notify_via. destruct (find_inst st id) as [i|]; [|reflexivity].
-  destruct (i_proc_locked i); [reflexivity|].
-  destruct o as [|x| | | | |g1 g2 g3|]; try reflexivity; apply set_proc_db.
+  destruct (i_proc_locked i); [reflexivity|]. destruct o; reflexivity.
 Qed.
+
+Lemma notify_via_frame st id o mk vh val : frame st (r_state (notify_via st id o mk vh val)).
+Proof. rewrite notify_via_state. apply frame_refl. Qed.
+
+Lemma notify_via_db st id o mk vh val : st_db (r_state (notify_via st id o mk vh val)) = st_db st.
+Proof. rewrite notify_via_state. reflexivity. Qed.
 
 Lemma notify_via_out st id o (mk : N -> bytes -> att_pdu) vh val :
   (forall h x, is_rsp (mk h x) = false) -> (forall h x, att_size (mk h x) = 3 + nlen x) ->
@@ -412,11 +400,13 @@ Proof.
   destruct o as [|x| | | | |g1 g2 g3|]; cbn [r_out done raise]; try constructor; try constructor; auto.
 Qed.
 
+(** the only way [notify] blocks is a procedure lock that is already held; the exception of the
+    notification hook reaches the caller, the lock is released (finally) *)
 Lemma notify_via_exc st id o mk vh val :
   match r_exc (notify_via st id o mk vh val) with
   | None => True
   | Some ExDeadlock => proc_free st = false
-  | Some (ExHook o') => o' = o /\ returns_or_overrides o = false
+  | Some (ExHook o') => forall x, o' <> HOverride x
   | Some _ => False
   end.
 Proof.
@@ -424,16 +414,7 @@ Proof.
   destruct (i_proc_locked i) eqn:Hp.
   - cbn. destruct (proc_free st) eqn:Hpf; [|reflexivity].
     rewrite (proc_free_in st i Hpf (find_inst_in _ _ _ Hf)) in Hp. discriminate.
-  - destruct o as [|x| | | | |g1 g2 g3|]; cbn; auto.
-Qed.
-
-Lemma notify_via_quiet st id o mk vh val :
-  proc_free st = true -> returns_or_overrides o = true ->
-  r_exc (notify_via st id o mk vh val) = None /\ r_state (notify_via st id o mk vh val) = st.
-Proof.
-  intros Hpf Ho. unfold notify_via. destruct (find_inst st id) as [i|] eqn:Hf; [|auto].
-  rewrite (proc_free_in st i Hpf (find_inst_in _ _ _ Hf)).
-  destruct o as [|x| | | | |g1 g2 g3|]; try discriminate; auto.
+  - destruct o as [|x| | | | |g1 g2 g3|]; cbn; auto; intros; discriminate.
 Qed.
 
 (** shape of [Characteristic.value = v] *)
@@ -503,29 +484,25 @@ Proof.
     (eapply wf_state_frame; [apply notify_via_frame|apply notify_via_db|exact W]).
 Qed.
 
+(** the procedure locks are as they were, whatever the notification hook does *)
+Lemma app_set_proc st d v hk : proc_free (r_state (app_set st d v hk)) = proc_free st.
+Proof.
+  destruct (app_set_shape st d v hk) as [st1 H|st1 id H|st1 id H]; cbn [r_state done];
+    rewrite ?notify_via_state; apply (app_db_proc _ _ _ _ H).
+Qed.
+
 Lemma app_set_exc st d v hk :
   match r_exc (app_set st d v hk) with
   | None => True
   | Some ExDeadlock => proc_free st = false
-  | Some (ExHook o') => returns_or_overrides o' = false /\ (o' = h_notif hk \/ o' = h_indic hk)
+  | Some (ExHook o') => forall x, o' <> HOverride x
   | Some _ => False
   end.
 Proof.
   destruct (app_set_shape st d v hk) as [st1 H|st1 id H|st1 id H]; [exact I| |];
     match goal with |- context [notify_via ?s ?i ?o ?m ?h ?x] => pose proof (notify_via_exc s i o m h x) as E;
-      destruct (r_exc (notify_via s i o m h x)) as [[]|] end; try exact I; try contradiction;
-    try (rewrite <- (app_db_proc _ _ _ _ H); exact E); destruct E as [-> E]; auto.
-Qed.
-
-Lemma app_set_quiet st d v hk :
-  proc_free st = true -> notif_hooks_return hk = true ->
-  r_exc (app_set st d v hk) = None /\ proc_free (r_state (app_set st d v hk)) = true.
-Proof.
-  intros Hpf Hq. unfold notif_hooks_return in Hq. apply andb_true_iff in Hq as [Hn Hi].
-  destruct (app_set_shape st d v hk) as [st1 H|st1 id H|st1 id H]; cbn [r_exc r_state done];
-    pose proof (app_db_proc _ _ _ _ H) as Ep; rewrite <- Ep in Hpf; [auto| |].
-  - destruct (notify_via_quiet st1 id (h_notif hk) PNotification (d + 1) v Hpf Hn) as [-> ->]. auto.
-  - destruct (notify_via_quiet st1 id (h_indic hk) PIndication (d + 1) v Hpf Hi) as [-> ->]. auto.
+      destruct (r_exc (notify_via s i o m h x)) as [[]|] end; try exact I; try contradiction; try exact E;
+    rewrite <- (app_db_proc _ _ _ _ H); exact E.
 Qed.
 
 (** a hook call site *)
@@ -536,23 +513,23 @@ Lemma hook_act_spec st hk act o st1 pd res :
   hook_act st hk act o = (st1, pd, res) ->
   frame st st1 /\ act_out_ok st pd
   /\ (wf_state st = true -> wf_act act = true -> wf_state st1 = true)
-  /\ (proc_free st = true -> notif_hooks_return hk = true -> res = HOut o /\ proc_free st1 = true)
+  /\ proc_free st1 = proc_free st
   /\ (act = None -> st1 = st /\ pd = [] /\ res = HOut o)
   /\ (res = HHang -> proc_free st = false)
-  /\ (forall o', res = HOut o' -> o' = o \/ returns_or_overrides o' = false).
+  /\ (forall x, res = HOut (HOverride x) -> o = HOverride x).
 Proof.
   unfold hook_act. destruct act as [[d v]|].
   2:{ intros E. inversion E; subst. repeat split; auto using frame_refl, act_out_ok_nil; try discriminate.
-      intros o' E'. inversion E'. auto. }
+      intros x Hx. inversion Hx. reflexivity. }
   intros E. inversion E; subst. clear E.
   pose proof (app_set_exc st d v hk) as Ex.
   split; [apply app_set_frame|]. split; [apply app_set_out|].
   split; [intros Hwf Hv; apply app_set_wf; assumption|].
-  split.
-  { intros Hpf Hq. destruct (app_set_quiet st d v hk Hpf Hq) as [E1 E2]. rewrite E1. auto. }
+  split; [apply app_set_proc|].
   split; [discriminate|]. split.
   - destruct (r_exc (app_set st d v hk)) as [[]|]; try discriminate; try contradiction; auto.
-  - intros o' E'. destruct (r_exc (app_set st d v hk)) as [[]|]; inversion E'; subst; auto. right. tauto.
+  - intros x Hx. destruct (r_exc (app_set st d v hk)) as [[]|]; inversion Hx; subst; try reflexivity.
+    exfalso. apply (Ex x). reflexivity.
 Qed.
 
 (** * The lock *)
@@ -561,97 +538,81 @@ Lemma locked_out v st body :
   tx_locked st = false -> r_out (locked v st body) = r_out (body (with_lock st true)).
 Proof. intros H. unfold locked. rewrite H. destruct (r_exc _) as [[]|]; reflexivity. Qed.
 
-(** a handler body that cannot block for ever: (1) when no hook updates a characteristic,
-    (2) when no procedure lock is held and the notification hooks return or override *)
-Definition safe (st : state) (hk : hook_oracle) (r : hres) : Prop :=
-  (h_acts hk = no_acts -> r_exc r <> Some ExDeadlock)
-  /\ (proc_free st = true -> notif_hooks_return hk = true ->
-      r_exc r <> Some ExDeadlock /\ proc_free (r_state r) = true).
+(** a handler body leaves the procedure locks as they were and cannot block for ever when none
+    of them is held *)
+Definition safe (st : state) (r : hres) : Prop :=
+  proc_free (r_state r) = proc_free st /\ (proc_free st = true -> r_exc r <> Some ExDeadlock).
 
-Lemma safe_simple st hk r :
-  r_exc r <> Some ExDeadlock -> proc_free (r_state r) = proc_free st -> safe st hk r.
-Proof. intros H1 H2. split; [auto|]. intros Hp _. split; [exact H1|congruence]. Qed.
+Lemma safe_simple st r :
+  r_exc r <> Some ExDeadlock -> proc_free (r_state r) = proc_free st -> safe st r.
+Proof. intros H1 H2. split; [exact H2|intros _; exact H1]. Qed.
 
 Lemma hook_error_exc st op opa h o : r_exc (hook_error st op opa h o) <> Some ExDeadlock.
 Proof. destruct o as [|x| | | | |g1 g2 g3|]; cbn; discriminate. Qed.
 
 (** the hook call sites *)
 Lemma hook_act_safe st hk act o st1 pd res :
-  hook_act st hk act o = (st1, pd, res) -> (h_acts hk = no_acts -> act = None) ->
-  (h_acts hk = no_acts -> res = HOut o /\ st1 = st)
-  /\ (proc_free st = true -> notif_hooks_return hk = true -> res = HOut o /\ proc_free st1 = true).
+  hook_act st hk act o = (st1, pd, res) ->
+  proc_free st1 = proc_free st /\ (proc_free st = true -> res <> HHang).
 Proof.
-  intros E Ha. destruct (hook_act_spec _ _ _ _ _ _ _ E) as (_ & _ & _ & Hq & Hn & _).
-  split; [|exact Hq]. intros H. destruct (Hn (Ha H)) as (-> & _ & ->). auto.
+  intros E. destruct (hook_act_spec _ _ _ _ _ _ _ E) as (_ & _ & _ & Hp & _ & Hh & _).
+  split; [exact Hp|]. intros Hf Hr. rewrite (Hh Hr) in Hf. discriminate.
 Qed.
 
-Lemma post_hook_safe st hk act o out :
-  (h_acts hk = no_acts -> act = None) -> safe st hk (post_hook st hk act o out).
+Lemma safe_change st st' r : proc_free st' = proc_free st -> safe st' r -> safe st r.
+Proof. intros E [H1 H2]. split; [congruence|]. rewrite <- E. exact H2. Qed.
+
+Lemma post_hook_safe st hk act o out : safe st (post_hook st hk act o out).
 Proof.
-  intros Ha. unfold post_hook. destruct (hook_act st hk act o) as [[st1 pd] res] eqn:E.
-  destruct (hook_act_safe _ _ _ _ _ _ _ E Ha) as [H1 H2]. split.
-  - intros H. destruct (H1 H) as [-> ->]. destruct o; cbn; discriminate.
-  - intros Hp Hq. destruct (H2 Hp Hq) as [-> Hp1]. destruct o; cbn; split; try discriminate; exact Hp1.
+  unfold post_hook. destruct (hook_act st hk act o) as [[st1 pd] res] eqn:E.
+  destruct (hook_act_safe _ _ _ _ _ _ _ E) as [P H].
+  destruct res as [o'|]; cbn [r_state r_exc done raise]; (split; [exact P|]).
+  - intros _. discriminate.
+  - intros Hp. exfalso. apply (H Hp). reflexivity.
 Qed.
 
-Lemma read_value_answer_safe st hk op opa h mk normal : safe st hk (read_value_answer st hk op opa h mk normal).
+Lemma read_value_answer_safe st hk op opa h mk normal : safe st (read_value_answer st hk op opa h mk normal).
 Proof.
   unfold read_value_answer. destruct (hook_act st hk (ha_read (h_acts hk)) (h_read hk)) as [[st1 pd] res] eqn:E.
-  destruct (hook_act_safe _ _ _ _ _ _ _ E ltac:(intros ->; reflexivity)) as [H1 H2]. split.
-  - intros H. destruct (H1 H) as [-> ->]. destruct (h_read hk) as [|x| | | | |g1 g2 g3|]; cbn; discriminate.
-  - intros Hp Hq. destruct (H2 Hp Hq) as [-> Hp1].
-    destruct (h_read hk) as [|x| | | | |g1 g2 g3|]; cbn; split; try discriminate; exact Hp1.
+  destruct (hook_act_safe _ _ _ _ _ _ _ E) as [P H].
+  destruct res as [o'|].
+  - destruct o' as [|x| | | | |g1 g2 g3|]; cbn; (split; [exact P|intros _; discriminate]).
+  - cbn. split; [exact P|]. intros Hp. exfalso. apply (H Hp). reflexivity.
 Qed.
-
-Lemma safe_prepend st hk pd r : safe st hk r -> safe st hk (prepend pd r).
-Proof. intros H. exact H. Qed.
 
 (** destruct the hook call of site [site] appearing in the goal *)
 Ltac dha site st' pd res E :=
   match goal with |- context [hook_act ?s ?hk (site (h_acts ?hk)) ?o] =>
     destruct (hook_act s hk (site (h_acts hk)) o) as [[st' pd] res] eqn:E end.
 
-Lemma write_value_safe st hk op opa h val rsp : safe st hk (write_value st hk op opa h val rsp).
+Lemma write_value_safe st hk op opa h val rsp : safe st (write_value st hk op opa h val rsp).
 Proof.
   unfold write_value. cbv zeta.
   dha ha_write st1 pd1 res1 E1.
-  destruct (hook_act_safe _ _ _ _ _ _ _ E1 ltac:(intros ->; reflexivity)) as [A1 B1].
-  split.
-  - intros H. destruct (A1 H) as [-> ->].
-    destruct (h_write hk) as [|x| | | | |g1 g2 g3|]; try (cbn; discriminate).
-    + dha ha_written st3 pd3 res3 E3.
-      destruct (hook_act_safe _ _ _ _ _ _ _ E3 ltac:(intros ->; reflexivity)) as [A3 _].
-      destruct (A3 H) as [-> ->].
-      destruct (h_written hk) as [|y| | | | |k1 k2 k3|]; try (cbn; discriminate).
-      apply (proj1 (post_hook_safe _ hk (ha_written2 (h_acts hk)) _ _ ltac:(intros ->; reflexivity)) H).
-    + apply (proj1 (post_hook_safe _ hk (ha_written (h_acts hk)) _ _ ltac:(intros ->; reflexivity)) H).
-  - intros Hp Hq. destruct (B1 Hp Hq) as [-> Hp1].
-    destruct (h_write hk) as [|x| | | | |g1 g2 g3|]; try (cbn; split; [discriminate|exact Hp1]).
-    + dha ha_written st3 pd3 res3 E3.
-      destruct (hook_act_safe _ _ _ _ _ _ _ E3 ltac:(intros ->; reflexivity)) as [_ B3].
-      destruct (B3 Hp1 Hq) as [-> Hp3].
-      destruct (h_written hk) as [|y| | | | |k1 k2 k3|]; try (cbn; split; [discriminate|exact Hp3]).
-      apply (proj2 (post_hook_safe _ hk (ha_written2 (h_acts hk)) _ _ ltac:(intros ->; reflexivity))); [exact Hp3|exact Hq].
-    + apply (proj2 (post_hook_safe _ hk (ha_written (h_acts hk)) _ _ ltac:(intros ->; reflexivity))); [exact Hp1|exact Hq].
+  destruct (hook_act_safe _ _ _ _ _ _ _ E1) as [P1 H1].
+  destruct res1 as [o1|].
+  - destruct o1 as [|x| | | | |g1 g2 g3|];
+      try (cbn; split; [exact P1|intros _; discriminate]).
+    + eapply safe_change; [|apply post_hook_safe]. exact P1.
+    + eapply safe_change; [|apply post_hook_safe]. exact P1.
+    + destruct rsp; cbn; (split; [exact P1|intros _; discriminate]).
+  - cbn. split; [exact P1|]. intros Hp. exfalso. apply (H1 Hp). reflexivity.
 Qed.
 
-Lemma safe_change st st' hk r : proc_free st' = proc_free st -> safe st' hk r -> safe st hk r.
-Proof. intros E [H1 H2]. split; [exact H1|]. rewrite <- E. exact H2. Qed.
-
-Lemma cccd_effects_safe st hk h newv record out : safe st hk (cccd_effects st hk h newv record out).
+Lemma cccd_effects_safe st hk h newv record out : safe st (cccd_effects st hk h newv record out).
 Proof.
   unfold cccd_effects.
   destruct (un_le16_2 newv) as [cfg|]; [|apply safe_simple; [cbn; discriminate|reflexivity]].
   destruct (owner_decl h (st_db st) None) as [d|]; [|apply safe_simple; [cbn; discriminate|reflexivity]].
-  destruct (cfg =? 1); [destruct record; (eapply safe_change; [|apply (post_hook_safe _ hk); intros ->; reflexivity]); reflexivity|].
-  destruct (cfg =? 2); [destruct record; (eapply safe_change; [|apply (post_hook_safe _ hk); intros ->; reflexivity]); reflexivity|].
-  destruct (cfg =? 0); [(eapply safe_change; [|apply (post_hook_safe _ hk); intros ->; reflexivity]); reflexivity|].
+  destruct (cfg =? 1); [destruct record; (eapply safe_change; [|apply post_hook_safe]); reflexivity|].
+  destruct (cfg =? 2); [destruct record; (eapply safe_change; [|apply post_hook_safe]); reflexivity|].
+  destruct (cfg =? 0); [(eapply safe_change; [|apply post_hook_safe]); reflexivity|].
   apply safe_simple; [cbn; discriminate|reflexivity].
 Qed.
 
 Ltac nodl := cbn; let E0 := fresh in (intro E0; discriminate E0).
 
-Lemma read_req_safe st hk h : safe st hk (h_read_req V_fixed st hk h).
+Lemma read_req_safe st hk h : safe st (h_read_req V_fixed st hk h).
 Proof.
   unfold h_read_req. cbn [fx_read_default V_fixed].
   destruct (h =? 0); [apply safe_simple; [nodl|reflexivity]|].
@@ -660,7 +621,7 @@ Proof.
   destruct (read_denied st h); [apply safe_simple; [nodl|reflexivity]|apply read_value_answer_safe].
 Qed.
 
-Lemma read_blob_safe st hk h off : safe st hk (h_read_blob V_fixed st hk h off).
+Lemma read_blob_safe st hk h off : safe st (h_read_blob V_fixed st hk h off).
 Proof.
   unfold h_read_blob, blob_value_branch. cbn [fx_blob V_fixed].
   destruct (h =? 0); [apply safe_simple; [nodl|reflexivity]|].
@@ -673,7 +634,7 @@ Proof.
     end; try (apply safe_simple; [nodl|reflexivity]); apply read_value_answer_safe.
 Qed.
 
-Lemma write_gen_safe st hk is_cmd h val : safe st hk (h_write_gen V_fixed st hk is_cmd h val).
+Lemma write_gen_safe st hk is_cmd h val : safe st (h_write_gen V_fixed st hk is_cmd h val).
 Proof.
   unfold h_write_gen. cbn [fx_write_default fx_sub_record V_fixed].
   destruct (h =? 0); [apply safe_simple; [nodl|reflexivity]|].
@@ -699,7 +660,7 @@ Proof.
   apply (IH (with_db st db')).
 Qed.
 
-Lemma execute_safe st hk f : safe st hk (h_execute V_fixed st f).
+Lemma execute_safe st f : safe st (h_execute V_fixed st f).
 Proof.
   unfold h_execute. cbn [fx_exec_clear fx_exec_flags V_fixed].
   destruct (f =? 0); [apply safe_simple; [nodl|reflexivity]|].
@@ -719,6 +680,10 @@ Lemma read_by_type_state st s e ty : r_state (h_read_by_type st s e ty) = st.
 Proof. unfold h_read_by_type. break; reflexivity. Qed.
 Lemma read_by_group_state v st s e ty : r_state (h_read_by_group v st s e ty) = st.
 Proof. unfold h_read_by_group. break; reflexivity. Qed.
+Lemma unparsed_state st o : r_state (unparsed st o) = st.
+Proof. unfold unparsed. destruct (req_opcode o); reflexivity. Qed.
+Lemma unparsed_exc st o : r_exc (unparsed st o) = None.
+Proof. unfold unparsed. destruct (req_opcode o); reflexivity. Qed.
 
 Lemma find_info_exc st s e : r_exc (h_find_info st s e) = None.
 Proof. unfold h_find_info. break; reflexivity. Qed.
@@ -729,29 +694,24 @@ Proof. unfold h_fbtv. break; cbn; discriminate. Qed.
 Lemma read_by_group_exc v st s e ty : r_exc (h_read_by_group v st s e ty) <> Some ExDeadlock.
 Proof. unfold h_read_by_group. break; cbn; discriminate. Qed.
 
-Lemma locked_safe st hk body :
-  tx_locked st = false -> safe (with_lock st true) hk (body (with_lock st true)) ->
-  (h_acts hk = no_acts -> tx_locked (r_state (locked V_fixed st body)) = false)
-  /\ (proc_free st = true -> notif_hooks_return hk = true ->
-      tx_locked (r_state (locked V_fixed st body)) = false /\ proc_free (r_state (locked V_fixed st body)) = true).
+Lemma locked_safe st body :
+  tx_locked st = false -> proc_free st = true -> safe (with_lock st true) (body (with_lock st true)) ->
+  tx_locked (r_state (locked V_fixed st body)) = false /\ proc_free (r_state (locked V_fixed st body)) = true.
 Proof.
-  intros Hl [S1 S2]. unfold locked. rewrite Hl. cbn [fx_finally V_fixed negb].
-  split.
-  - intros H. specialize (S1 H). destruct (r_exc (body (with_lock st true))) as [[]|]; try reflexivity. contradiction.
-  - intros Hp Hq. destruct (S2 Hp Hq) as [S3 S4].
-    destruct (r_exc (body (with_lock st true))) as [[]|]; try (split; [reflexivity|exact S4]). contradiction.
+  intros Hl Hp [S1 S2]. unfold locked. rewrite Hl. cbn [fx_finally V_fixed negb].
+  assert (S4 : proc_free (r_state (body (with_lock st true))) = true) by (rewrite S1; exact Hp).
+  specialize (S2 Hp).
+  destruct (r_exc (body (with_lock st true))) as [[]|]; try (split; [reflexivity|exact S4]). contradiction.
 Qed.
 
 Lemma handle_safe st r hk :
-  tx_locked st = false ->
-  (h_acts hk = no_acts -> tx_locked (r_state (handle V_fixed st r hk)) = false)
-  /\ (proc_free st = true -> notif_hooks_return hk = true ->
-      tx_locked (r_state (handle V_fixed st r hk)) = false /\ proc_free (r_state (handle V_fixed st r hk)) = true).
+  tx_locked st = false -> proc_free st = true ->
+  tx_locked (r_state (handle V_fixed st r hk)) = false /\ proc_free (r_state (handle V_fixed st r hk)) = true.
 Proof.
-  intros Hl.
-  assert (Triv : (h_acts hk = no_acts -> tx_locked st = false)
-                 /\ (proc_free st = true -> notif_hooks_return hk = true -> tx_locked st = false /\ proc_free st = true)) by auto.
-  destruct r; cbn [handle fx_rbt128 V_fixed]; try exact Triv; try apply (locked_safe st hk _ Hl).
+  intros Hl Hp.
+  assert (Triv : tx_locked st = false /\ proc_free st = true) by auto.
+  destruct r; cbn [handle fx_rbt128 V_fixed]; try exact Triv; try (rewrite unparsed_state; exact Triv);
+    try apply (locked_safe st _ Hl Hp).
   - apply safe_simple; [nodl|]. unfold h_mtu. destruct (23 <=? mtu); reflexivity.
   - apply safe_simple; [rewrite find_info_exc; discriminate|rewrite find_info_state; reflexivity].
   - apply safe_simple; [apply fbtv_exc|rewrite fbtv_state; reflexivity].
@@ -759,41 +719,34 @@ Proof.
   - apply safe_simple; [rewrite read_by_type_exc; discriminate|rewrite read_by_type_state; reflexivity].
   - apply read_req_safe.
   - apply read_blob_safe.
-  - destruct hs; [exact Triv|]. apply (locked_safe st hk _ Hl). apply safe_simple; [nodl|reflexivity].
+  - destruct hs; [rewrite unparsed_state; exact Triv|]. apply (locked_safe st _ Hl Hp). apply safe_simple; [nodl|reflexivity].
   - apply safe_simple; [apply read_by_group_exc|rewrite read_by_group_state; reflexivity].
   - apply write_gen_safe.
   - apply write_gen_safe.
-  - apply safe_simple; unfold h_prepare; destruct (lookup h _); cbn; try discriminate; reflexivity.
+  - apply safe_simple; unfold h_prepare; (destruct (lookup h _) as [a|]; [destruct (a_kind a)|]); cbn; try discriminate; reflexivity.
   - apply execute_safe.
   - apply safe_simple; [nodl|reflexivity].
 Qed.
 
-(** no request, whatever the hooks raise or return, leaves the lock held -- provided a hook that
-    updates a characteristic cannot block on the procedure lock *)
+(** NEVER WEDGES: no request, whatever its content, whatever the database and whatever the hooks
+    return, raise or update, leaves the transmit lock or a procedure lock held *)
 Lemma never_wedges st r hk :
-  tx_locked st = false -> proc_free st = true -> notif_hooks_return hk = true ->
+  tx_locked st = false -> proc_free st = true ->
   tx_locked (fst (server_step st r hk)) = false /\ proc_free (fst (server_step st r hk)) = true.
-Proof. intros Hl Hp Hq. apply (proj2 (handle_safe st r hk Hl) Hp Hq). Qed.
-
-Lemma never_wedges_no_updates st r hk :
-  tx_locked st = false -> h_acts hk = no_acts -> tx_locked (fst (server_step st r hk)) = false.
-Proof. intros Hl Ha. apply (proj1 (handle_safe st r hk Hl) Ha). Qed.
+Proof. intros Hl Hp. apply (handle_safe st r hk Hl Hp). Qed.
 
 (** ... along every history *)
-Definition ev_quiet (ev : event) : bool :=
-  match ev with EvReq _ hk | EvAppSet _ _ hk => notif_hooks_return hk | _ => true end.
-
 Lemma app_set_lock st d val hk : tx_locked (r_state (app_set st d val hk)) = tx_locked st.
 Proof. apply (fr_lock _ _ (app_set_frame st d val hk)). Qed.
 
 Lemma step_unlocked st ev :
-  tx_locked st = false -> proc_free st = true -> ev_quiet ev = true ->
+  tx_locked st = false -> proc_free st = true ->
   tx_locked (r_state (step V_fixed st ev)) = false /\ proc_free (r_state (step V_fixed st ev)) = true.
 Proof.
-  intros Hl Hp Hq. destruct ev; cbn [step ev_quiet] in *.
-  - destruct (st_connected st); [apply (proj2 (handle_safe st r hk Hl) Hp Hq)|auto].
+  intros Hl Hp. destruct ev; cbn [step] in *.
+  - destruct (st_connected st); [apply (handle_safe st r hk Hl Hp)|auto].
   - cbn [r_state done]. destruct (st_connected st); auto.
-  - rewrite app_set_lock. split; [exact Hl|apply (app_set_quiet st decl v hk Hp Hq)].
+  - rewrite app_set_lock, app_set_proc. auto.
   - cbn [r_state done]. unfold disconnect. destruct (st_connected st); [|auto].
     cbn [fx_disc_term V_fixed]. split; [exact Hl|exact Hp].
   - cbn [r_state done]. unfold connect. destruct (st_connected st); [auto|]. split; [reflexivity|].
@@ -801,12 +754,11 @@ Proof.
 Qed.
 
 Lemma never_wedges_history evs : forall st,
-  tx_locked st = false -> proc_free st = true -> forallb ev_quiet evs = true ->
+  tx_locked st = false -> proc_free st = true ->
   tx_locked (run_state V_fixed st evs) = false /\ proc_free (run_state V_fixed st evs) = true.
 Proof.
-  induction evs as [|ev r IH]; intros st Hl Hp Hq; cbn [run_state]; [auto|].
-  cbn [forallb] in Hq. apply andb_true_iff in Hq as [Hq1 Hq2].
-  destruct (step_unlocked st ev Hl Hp Hq1) as [H1 H2]. apply IH; assumption.
+  induction evs as [|ev r IH]; intros st Hl Hp; cbn [run_state]; [auto|].
+  destruct (step_unlocked st ev Hl Hp) as [H1 H2]. apply IH; assumption.
 Qed.
 
 (** the probe request of the harness is answered in every unlocked, connected state *)
@@ -830,50 +782,40 @@ Qed.
 Lemma rsps_all out : Forall (fun p => is_rsp p = true) out -> rsps out = out.
 Proof. induction 1 as [|p r H _ IH]; [reflexivity|]. unfold rsps in *. cbn [filter]. rewrite H, IH. reflexivity. Qed.
 
-Lemma hooks_behave_inv hk : hooks_behave hk = true ->
-  raises_other (h_read hk) = false /\ raises_other (h_write hk) = false /\ raises_other (h_written hk) = false
-  /\ raises_other (h_written2 hk) = false /\ raises_other (h_sub hk) = false /\ raises_other (h_unsub hk) = false.
-Proof.
-  unfold hooks_behave. intros H. apply negb_true_iff in H.
-  repeat (apply orb_false_iff in H; destruct H as [H ?]). repeat split; assumption.
-Qed.
-
 Lemma hook_error_rsps st op opa h o : rsps (r_out (hook_error st op opa h o)) = r_out (hook_error st op opa h o).
 Proof. destruct o as [|x| | | | |g1 g2 g3|]; reflexivity. Qed.
 
 Lemma hook_error_len st op opa h o :
-  match o with HReturn | HOverride _ | HRaiseOther => False | _ => True end ->
+  match o with HReturn | HOverride _ => False | _ => True end ->
   length (r_out (hook_error st op opa h o)) = 1%nat.
 Proof. destruct o as [|x| | | | |g1 g2 g3|]; cbn; intros; try reflexivity; contradiction. Qed.
 
-Section Quiet.
-Variable hk : hook_oracle.
-Hypothesis Hq : notif_hooks_return hk = true.
-
-Lemma hook_act_quiet st act o st1 pd res :
-  proc_free st = true -> hook_act st hk act o = (st1, pd, res) ->
-  res = HOut o /\ proc_free st1 = true /\ rsps pd = [].
+(** a hook call site: the update sends no response; without a stuck procedure lock it comes back *)
+Lemma hook_act_rsps st hk act o st1 pd res :
+  hook_act st hk act o = (st1, pd, res) ->
+  rsps pd = [] /\ proc_free st1 = proc_free st /\ (proc_free st = true -> exists o', res = HOut o').
 Proof.
-  intros Hp E. destruct (hook_act_spec _ _ _ _ _ _ _ E) as (_ & Ho & _ & Hqq & _).
-  destruct (Hqq Hp Hq) as [-> Hp1]. repeat split; [exact Hp1|apply (rsps_act st), Ho].
+  intros E. destruct (hook_act_spec _ _ _ _ _ _ _ E) as (_ & Ho & _ & Hp & _ & Hh & _).
+  split; [apply (rsps_act st), Ho|]. split; [exact Hp|]. intros Hf.
+  destruct res as [o'|]; [exists o'; reflexivity|]. rewrite (Hh eq_refl) in Hf. discriminate.
 Qed.
 
-Lemma post_hook_rsps st act o out : rsps (r_out (post_hook st hk act o out)) = rsps out.
+Lemma post_hook_rsps st hk act o out : rsps (r_out (post_hook st hk act o out)) = rsps out.
 Proof.
   unfold post_hook. destruct (hook_act st hk act o) as [[st1 pd] res] eqn:E.
   destruct (hook_act_spec _ _ _ _ _ _ _ E) as (_ & Ho & _).
   assert (R : rsps (out ++ pd) = rsps out) by (rewrite rsps_app, (rsps_act st pd Ho), app_nil_r; reflexivity).
-  destruct res as [o'|]; [destruct o'|]; exact R.
+  destruct res as [o'|]; exact R.
 Qed.
 
-Lemma read_value_answer_len st op opa h (mk : bytes -> att_pdu) normal :
-  proc_free st = true -> (forall x, is_rsp (mk x) = true) -> raises_other (h_read hk) = false ->
+Lemma read_value_answer_len st hk op opa h (mk : bytes -> att_pdu) normal :
+  proc_free st = true -> (forall x, is_rsp (mk x) = true) ->
   length (rsps (r_out (read_value_answer st hk op opa h mk normal))) = 1%nat.
 Proof.
-  intros Hp Hmk Hr. unfold read_value_answer.
+  intros Hp Hmk. unfold read_value_answer.
   destruct (hook_act st hk (ha_read (h_acts hk)) (h_read hk)) as [[st1 pd] res] eqn:E.
-  destruct (hook_act_quiet _ _ _ _ _ _ Hp E) as (-> & _ & Hpd).
-  destruct (h_read hk) as [|x| | | | |g1 g2 g3|]; try discriminate; cbn [r_out done prepend];
+  destruct (hook_act_rsps _ _ _ _ _ _ _ E) as (Hpd & _ & Hres). destruct (Hres Hp) as [o' ->].
+  destruct o' as [|x| | | | |g1 g2 g3|]; cbn [r_out done prepend];
     rewrite rsps_app, Hpd; try (unfold rsps; cbn [filter app]; rewrite Hmk; reflexivity);
     rewrite hook_error_rsps; reflexivity.
 Qed.
@@ -897,22 +839,20 @@ Proof.
   - exfalso. exact (fbtv_match_fixed _ _ _ _ E).
 Qed.
 
-Lemma read_req_len st h :
-  proc_free st = true -> raises_other (h_read hk) = false ->
-  length (rsps (r_out (h_read_req V_fixed st hk h))) = 1%nat.
+Lemma read_req_len st hk h :
+  proc_free st = true -> length (rsps (r_out (h_read_req V_fixed st hk h))) = 1%nat.
 Proof.
-  intros Hp Hr. unfold h_read_req. cbn [fx_read_default V_fixed].
+  intros Hp. unfold h_read_req. cbn [fx_read_default V_fixed].
   destruct (h =? 0); [reflexivity|].
   destruct (lookup h (st_db st)) as [a|]; [|reflexivity].
   destruct (a_kind a); try reflexivity.
   destruct (read_denied st h); [reflexivity|apply read_value_answer_len; auto].
 Qed.
 
-Lemma read_blob_len st h off :
-  proc_free st = true -> raises_other (h_read hk) = false ->
-  length (rsps (r_out (h_read_blob V_fixed st hk h off))) = 1%nat.
+Lemma read_blob_len st hk h off :
+  proc_free st = true -> length (rsps (r_out (h_read_blob V_fixed st hk h off))) = 1%nat.
 Proof.
-  intros Hp Hr. unfold h_read_blob, blob_value_branch. cbn [fx_blob V_fixed].
+  intros Hp. unfold h_read_blob, blob_value_branch. cbn [fx_blob V_fixed].
   destruct (h =? 0); [reflexivity|].
   destruct (lookup h (st_db st)) as [a|]; [|reflexivity].
   destruct (a_kind a);
@@ -923,7 +863,7 @@ Proof.
     end; try reflexivity; apply read_value_answer_len; auto.
 Qed.
 
-Lemma cccd_effects_out st h newv record out : rsps (r_out (cccd_effects st hk h newv record out)) = rsps out.
+Lemma cccd_effects_out st hk h newv record out : rsps (r_out (cccd_effects st hk h newv record out)) = rsps out.
 Proof.
   unfold cccd_effects.
   destruct (un_le16_2 newv) as [cfg|]; [|reflexivity].
@@ -933,47 +873,45 @@ Proof.
   destruct (cfg =? 0); [apply post_hook_rsps|reflexivity].
 Qed.
 
-Lemma write_value_len st op opa h val rsp :
+Lemma write_value_len st hk op opa h val rsp :
   proc_free st = true -> rsps rsp = rsp ->
-  is_return (h_written hk) = true -> raises_other (h_write hk) = false ->
   length (rsps (r_out (write_value st hk op opa h val rsp))) = length rsp
   \/ length (rsps (r_out (write_value st hk op opa h val rsp))) = 1%nat.
 Proof.
-  intros Hp Hrsp Hw Hr. unfold write_value. cbv zeta.
+  intros Hp Hrsp. unfold write_value. cbv zeta.
   dha ha_write st1 pd1 res1 E1.
-  destruct (hook_act_quiet _ _ _ _ _ _ Hp E1) as (-> & Hp1 & Hpd1).
-  destruct (h_write hk) as [|x| | | | |g1 g2 g3|]; try discriminate;
-    try (right; cbn [r_out prepend]; rewrite rsps_app, Hpd1, hook_error_rsps; reflexivity).
-  - dha ha_written st3 pd3 res3 E3.
-    destruct (hook_act_quiet (with_db st1 (update h (fun a => set_value a val) (st_db st1))) _ _ _ _ _ Hp1 E3) as (-> & Hp3 & Hpd3).
-    destruct (h_written hk); try discriminate. left. cbn [r_out done].
-    rewrite !rsps_app, Hpd1, Hpd3, Hrsp, app_nil_r. reflexivity.
+  destruct (hook_act_rsps _ _ _ _ _ _ _ E1) as (Hpd1 & _ & Hres). destruct (Hres Hp) as [o1 ->].
+  assert (Herr : forall o, match o with HReturn | HOverride _ => False | _ => True end ->
+            length (rsps (r_out (prepend pd1 (hook_error st1 op opa h o)))) = 1%nat).
+  { intros o Ho. cbn [r_out prepend]. rewrite rsps_app, Hpd1, hook_error_rsps. apply hook_error_len, Ho. }
+  destruct o1 as [|x| | | | |g1 g2 g3|]; try (right; apply Herr; exact I).
   - left. rewrite post_hook_rsps, rsps_app, Hpd1, Hrsp. reflexivity.
+  - left. rewrite post_hook_rsps, rsps_app, Hpd1, Hrsp. reflexivity.
+  - destruct rsp as [|p rsp]; [left; cbn [r_out done]; rewrite Hpd1; reflexivity|].
+    right. apply Herr. exact I.
 Qed.
 
-Lemma write_gen_len st is_cmd h val :
-  proc_free st = true -> is_return (h_written hk) = true -> raises_other (h_write hk) = false ->
+Lemma write_gen_len st hk is_cmd h val :
+  proc_free st = true ->
   let n := length (rsps (r_out (h_write_gen V_fixed st hk is_cmd h val))) in
   if is_cmd then (n <= 1)%nat else n = 1%nat.
 Proof.
-  intros Hp Hw Hr. unfold h_write_gen. cbn [fx_write_default fx_sub_record V_fixed].
+  intros Hp. unfold h_write_gen. cbn [fx_write_default fx_sub_record V_fixed].
   assert (Hrsp : rsps (if is_cmd then [] else [PWriteRsp]) = (if is_cmd then [] else [PWriteRsp])) by (destruct is_cmd; reflexivity).
   assert (Hlen : length (if is_cmd then [] else [PWriteRsp]) = if is_cmd then 0%nat else 1%nat) by (destruct is_cmd; reflexivity).
   destruct (h =? 0); [destruct is_cmd; cbn; lia|].
   destruct (lookup h (st_db st)) as [a|]; [|destruct is_cmd; cbn; lia].
   destruct (a_kind a); try (destruct is_cmd; cbn; lia).
   - destruct (write_denied st h E_NOT_FOUND); [destruct is_cmd; cbn; lia|].
-    destruct (write_value_len st (if is_cmd then OP_WCMD else OP_WRITE) (if is_cmd then OP_WCMD else OP_READ) h val
-                (if is_cmd then [] else [PWriteRsp]) Hp Hrsp Hw Hr) as [E|E]; cbv zeta; rewrite E; rewrite ?Hlen; destruct is_cmd; lia.
+    destruct (write_value_len st hk (if is_cmd then OP_WCMD else OP_WRITE) (if is_cmd then OP_WCMD else OP_READ) h val
+                (if is_cmd then [] else [PWriteRsp]) Hp Hrsp) as [E|E]; cbv zeta; rewrite E; rewrite ?Hlen; destruct is_cmd; lia.
   - match goal with |- context [if ?b then cccd_effects _ _ _ _ _ _ else _] => destruct b end.
     + cbv zeta. rewrite cccd_effects_out, Hrsp, Hlen. destruct is_cmd; lia.
     + destruct is_cmd; cbn; lia.
 Qed.
 
-End Quiet.
-
 Lemma prepare_len st h off val : length (rsps (r_out (h_prepare st h off val))) = 1%nat.
-Proof. unfold h_prepare. destruct (lookup h (st_db st)); reflexivity. Qed.
+Proof. unfold h_prepare. destruct (lookup h (st_db st)) as [a|]; [destruct (a_kind a)|]; reflexivity. Qed.
 
 Lemma exec_loop_len q : forall st r, exec_loop V_fixed st q = inl r -> length (rsps (r_out r)) = 1%nat.
 Proof.
@@ -1012,35 +950,33 @@ Proof.
     [reflexivity | exfalso; exact (group_items_fixed _ _ E)].
 Qed.
 
-(** exactly one response per request, at most one per command, one confirmation per indication
+(** ONE RESPONSE: exactly one response per request (unknown and unparsable requests included), at
+    most one per command, one confirmation per indication -- for every state and all hooks
     (notifications a hook's update sends meanwhile are not responses) *)
 Lemma one_response st r hk :
-  tx_locked st = false -> proc_free st = true -> notif_hooks_return hk = true ->
-  wf_request (mtu_of st) r = true ->
-  hooks_behave hk = true -> is_return (h_written hk) = true ->
+  tx_locked st = false -> proc_free st = true ->
   let rsp := rsps (snd (server_step st r hk)) in
   (is_request r = true -> length rsp = 1%nat)
   /\ (is_command r = true -> (length rsp <= 1)%nat)
   /\ (is_indication r = true -> rsp = [PConfirmation]).
 Proof.
-  intros Hl Hp Hq Hwf Hb Hw. apply hooks_behave_inv in Hb as (Hr & Hwr & _).
+  intros Hl Hp.
   unfold server_step, server_step_v. cbn [snd].
   assert (Hp' : proc_free (with_lock st true) = true) by exact Hp.
-  pose proof (fun h v => write_gen_len hk Hq (with_lock st true) false h v Hp' Hw Hwr) as Wreq.
-  pose proof (fun h v => write_gen_len hk Hq (with_lock st true) true h v Hp' Hw Hwr) as Wcmd.
+  pose proof (fun h v => write_gen_len (with_lock st true) hk false h v Hp') as Wreq.
+  pose proof (fun h v => write_gen_len (with_lock st true) hk true h v Hp') as Wcmd.
   cbv zeta in Wreq, Wcmd.
   destruct r; cbn [handle is_request is_command is_indication fx_rbt128 V_fixed];
     rewrite ?(locked_out _ _ _ Hl);
     (split; [intros Hk | split; intros Hk]); try discriminate Hk;
     try first [ reflexivity | apply find_info_len | apply fbtv_len | apply read_by_type_len
-              | apply (read_req_len hk Hq); assumption | apply (read_blob_len hk Hq); assumption | apply read_by_group_len
+              | apply read_req_len; assumption | apply read_blob_len; assumption | apply read_by_group_len
               | apply Wreq | apply Wcmd | apply prepare_len | apply execute_len
               | (cbn; lia) ].
-  destruct hs as [|h0 hs]; [|rewrite (locked_out _ _ _ Hl); reflexivity].
-  unfold wf_request in Hwf. cbn [forallb negb andb] in Hwf. rewrite andb_false_r in Hwf. discriminate.
+  - destruct hs as [|h0 hs]; [reflexivity|rewrite (locked_out _ _ _ Hl); reflexivity].
+  - unfold unparsed. rewrite Hk. reflexivity.
+  - unfold unparsed. destruct (req_opcode opcode); cbn; lia.
 Qed.
-
-(** * fits_mtu *)
 
 Definition fits (m : N) (out : list att_pdu) : Prop := Forall (fun p => att_size p <= m) out.
 
@@ -1131,7 +1067,8 @@ Proof. intros. destruct o as [|x| | | | |g1 g2 g3|]; cbn; try apply fits_nil; ap
 Lemma prepare_fits st h off val :
   5 + nlen val <= mtu_of st -> 23 <= mtu_of st -> fits (mtu_of st) (r_out (h_prepare st h off val)).
 Proof.
-  intros Hs Hm. unfold h_prepare. destruct (lookup h (st_db st)); [|apply fits_err, Hm].
+  intros Hs Hm. unfold h_prepare. destruct (lookup h (st_db st)) as [a|]; [|apply fits_err, Hm].
+  destruct (a_kind a); try (apply fits_err, Hm).
   apply fits_one. unfold att_size, encode. nl. lia.
 Qed.
 
@@ -1242,7 +1179,7 @@ Lemma post_hook_pfits st0 st hk act o out :
 Proof.
   intros F Ho. unfold post_hook. destruct (hook_act st hk act o) as [[st1 pd] res] eqn:E.
   destruct (hook_act_pfits _ _ _ _ _ _ _ _ F E) as [Hp _].
-  destruct res as [o'|]; [destruct o'|]; cbn [r_out done raise]; apply pfits_app; assumption.
+  destruct res as [o'|]; cbn [r_out done raise]; apply pfits_app; assumption.
 Qed.
 
 Lemma hook_error_pfits st0 st op opa h o : 23 <= mtu_of st0 -> pfits st0 (r_out (hook_error st op opa h o)).
@@ -1309,14 +1246,9 @@ Proof.
   destruct (hook_act_pfits st _ _ _ _ _ _ _ (mframe_refl st) E1) as [Hp1 F1].
   destruct res1 as [o1|]; [|exact Hp1].
   destruct o1 as [|x| | | | |g1 g2 g3|]; try (cbn [r_out prepend]; apply pfits_app; [exact Hp1|apply hook_error_pfits, Hm]).
-  - dha ha_written st3 pd3 res3 E3.
-    destruct (hook_act_pfits st (with_db st1 (update h (fun a => set_value a val) (st_db st1))) _ _ _ _ _ _ F1 E3) as [Hp3 F3].
-    assert (Ho3 : pfits st (pd1 ++ rsp ++ pd3)) by (repeat apply pfits_app; assumption).
-    destruct res3 as [o3|]; [|exact Ho3].
-    destruct o3 as [|y| | | | |k1 k2 k3|]; try exact Ho3;
-      try (cbn [r_out prepend]; apply pfits_app; [exact Ho3|apply hook_error_pfits, Hm]).
-    apply (post_hook_pfits st); [exact F3|apply pfits_app; assumption].
   - apply (post_hook_pfits st); [exact F1|apply pfits_app; assumption].
+  - apply (post_hook_pfits st); [exact F1|apply pfits_app; assumption].
+  - destruct rsp; [exact Hp1|]. cbn [r_out prepend]. apply pfits_app; [exact Hp1|apply hook_error_pfits, Hm].
 Qed.
 
 Lemma cccd_effects_fits st hk h newv record out : pfits st out -> pfits st (r_out (cccd_effects st hk h newv record out)).
@@ -1356,10 +1288,13 @@ Proof.
   apply andb_true_iff in Hwf as [Hdb Hm]. apply N.leb_le in Hm.
   unfold wf_db in Hdb. apply andb_true_iff in Hdb as [Hdb _]. apply andb_true_iff in Hdb as [_ Hattrs].
   unfold server_step, server_step_v. cbn [snd].
+  assert (Hun : forall o, pfits st (r_out (unparsed st o))).
+  { intros o. unfold unparsed. destruct (req_opcode o); [apply fits_pfits, fits_err, Hm|constructor]. }
   destruct (tx_locked st) eqn:Hl.
-  { (* the lock is held: nothing is emitted *)
-    destruct r; cbn [handle fx_rbt128 V_fixed]; unfold locked; rewrite ?Hl; try (cbn [r_out done raise]; constructor; fail).
-    destruct hs; cbn [r_out done raise]; constructor. }
+  { (* the lock is held: only the ATT layer itself answers *)
+    destruct r; cbn [handle fx_rbt128 V_fixed]; unfold locked; rewrite ?Hl; try (cbn [r_out done raise]; constructor; fail);
+      try apply Hun.
+    destruct hs; [apply Hun|cbn [r_out done raise]; constructor]. }
   assert (Hm' : 23 <= mtu_of (with_lock st true)) by exact Hm.
   assert (Ha' : forallb wf_attr (st_db (with_lock st true)) = true) by exact Hattrs.
   assert (Conv : forall out, pfits (with_lock st true) out -> pfits st out) by (intros out H; exact H).
@@ -1372,7 +1307,7 @@ Proof.
   - apply fits_pfits, read_by_type_fits; assumption.
   - apply read_req_fits; assumption.
   - apply read_blob_fits; assumption.
-  - destruct hs; [constructor|]. rewrite (locked_out _ _ _ Hl). apply fits_pfits, fits_err, Hm'.
+  - destruct hs; [exact (Hun _)|]. rewrite (locked_out _ _ _ Hl). apply fits_pfits, fits_err, Hm'.
   - apply fits_pfits, read_by_group_fits; assumption.
   - apply write_gen_fits; assumption.
   - apply write_gen_fits; assumption.
@@ -1380,6 +1315,7 @@ Proof.
     cbn [req_size] in Hr. apply N.leb_le in Hr. exact Hr.
   - apply fits_pfits, execute_fits; assumption.
   - apply pfits_one, size_small; [exact Hm'|exact I].
+  - exact (Hun _).
 Qed.
 
 (** * list_response_wf *)
@@ -1685,7 +1621,7 @@ Lemma hook_act_override st hk act o st1 pd res x :
   hook_act st hk act o = (st1, pd, res) -> res = HOut (HOverride x) -> o = HOverride x.
 Proof.
   intros E R. destruct (hook_act_spec _ _ _ _ _ _ _ E) as (_ & _ & _ & _ & _ & _ & H).
-  destruct (H _ R) as [->|Hn]; [reflexivity|discriminate Hn].
+  apply (H _ R).
 Qed.
 
 Lemma post_hook_wf st hk act o out :
@@ -1693,7 +1629,7 @@ Lemma post_hook_wf st hk act o out :
 Proof.
   intros Hwf Ha. unfold post_hook. destruct (hook_act st hk act o) as [[st1 pd] res] eqn:E.
   pose proof (hook_act_wf _ _ _ _ _ _ _ E Hwf Ha) as W.
-  destruct res as [o'|]; [destruct o'|]; exact W.
+  destruct res as [o'|]; exact W.
 Qed.
 
 Lemma read_value_answer_wf st hk op opa h mk normal :
@@ -1753,19 +1689,11 @@ Proof.
   assert (K1' : option_map a_kind (lookup h (st_db st1)) = Some KValue) by (rewrite K1; exact K0).
   destruct res1 as [o1|]; [|exact W1].
   destruct o1 as [|x| | | | |g1 g2 g3|]; try (cbn [r_state prepend]; rewrite hook_error_state; exact W1).
-  - pose proof (store_wf_kind st1 h val KValue W1 K1' Hnc Hv) as W2.
-    dha ha_written st3 pd3 res3 E3.
-    pose proof (hook_act_wf _ _ _ _ _ _ _ E3 W2 Ha2) as W3.
-    pose proof (hook_act_kinds _ _ _ _ _ _ _ E3) as K3.
-    destruct res3 as [o3|]; [|exact W3].
-    destruct o3 as [|y| | | | |k1 k2 k3|]; try exact W3; try (cbn [r_state prepend]; rewrite hook_error_state; exact W3).
-    apply post_hook_wf; [|exact Ha3].
-    rewrite (hook_act_override _ _ _ _ _ _ _ _ E3 eq_refl) in Hwn.
-    apply (store_wf_kind st3 h y KValue W3); [|exact Hnc|exact Hwn].
-    rewrite K3, (kinds_same_store st1 h val h). exact K1'.
+  - apply post_hook_wf; [|exact Ha2]. apply (store_wf_kind st1 h val KValue W1 K1' Hnc Hv).
   - apply post_hook_wf; [|exact Ha2].
     rewrite (hook_act_override _ _ _ _ _ _ _ _ E1 eq_refl) in Hw.
     apply (store_wf_kind st1 h x KValue W1 K1' Hnc Hw).
+  - destruct rsp; [exact W1|]. cbn [r_state prepend]. rewrite hook_error_state. exact W1.
 Qed.
 
 Lemma cccd_effects_wf st hk h newv record out a :
@@ -1827,6 +1755,7 @@ Lemma prepare_wf st h off val :
   wf_state st = true -> wf_bytes val = true -> wf_state (r_state (h_prepare st h off val)) = true.
 Proof.
   intros Hwf Hv. unfold h_prepare. destruct (lookup h (st_db st)) as [a|] eqn:E; [|exact Hwf].
+  destruct (a_kind a); try exact Hwf.
   cbn [r_state done]. apply wf_state_with_queues; [exact Hwf|].
   apply queue_add_ok; eauto. apply wf_state_inv in Hwf as (_ & _ & _ & Hq). exact Hq.
 Qed.
@@ -1913,7 +1842,7 @@ Proof.
   intros Hwf Hr Hh. unfold server_step, server_step_v. cbn [fst].
   unfold wf_request in Hr. apply andb_true_iff in Hr as [_ Hr].
   assert (Hwf' : wf_state (with_lock st true) = true) by exact Hwf.
-  destruct r; cbn [handle fx_rbt128 V_fixed]; try exact Hwf;
+  destruct r; cbn [handle fx_rbt128 V_fixed]; try exact Hwf; try (rewrite unparsed_state; exact Hwf);
     try (apply locked_state_wf; [|exact Hwf]).
   - apply mtu_wf; [exact Hwf'|]. apply N.ltb_lt, Hr.
   - rewrite find_info_state. exact Hwf'.
@@ -1922,7 +1851,7 @@ Proof.
   - rewrite read_by_type_state. exact Hwf'.
   - apply read_req_wf; assumption.
   - apply read_blob_wf; assumption.
-  - destruct hs; [exact Hwf|]. apply locked_state_wf; [exact Hwf'|exact Hwf].
+  - destruct hs; [rewrite unparsed_state; exact Hwf|]. apply locked_state_wf; [exact Hwf'|exact Hwf].
   - rewrite read_by_group_state. exact Hwf'.
   - apply andb_true_iff in Hr as [_ Hr]. apply write_gen_wf; assumption.
   - apply andb_true_iff in Hr as [_ Hr]. apply write_gen_wf; assumption.
@@ -1937,17 +1866,17 @@ Lemma step_ok_holds st r hk :
   wf_state st = true -> wf_request (mtu_of st) r = true -> step_ok st r hk.
 Proof.
   intros Hwf Hr. unfold step_ok. cbv zeta. split; [|split; [|split]].
-  - intros Hl Hp Hq. apply never_wedges; assumption.
+  - intros Hl Hp. apply never_wedges; assumption.
   - apply fits_mtu; assumption.
   - intros s e Hs. apply list_response_wf; assumption.
-  - intros Hl Hp Hq Hb Hw. apply (one_response st r hk Hl Hp Hq Hr Hb Hw).
+  - intros Hl Hp. apply (one_response st r hk Hl Hp).
 Qed.
 
 Lemma session_ok (s : session) : forall st,
   wf_state st = true -> inputs_ok st s ->
   every_step step_ok st s
   /\ wf_state (fold_left session_step s st) = true
-  /\ (tx_locked st = false -> proc_free st = true -> quiet_notif s ->
+  /\ (tx_locked st = false -> proc_free st = true ->
       tx_locked (fold_left session_step s st) = false /\ proc_free (fold_left session_step s st) = true).
 Proof.
   induction s as [|[r hk] t IH]; intros st Hwf Hin; cbn [every_step fold_left inputs_ok] in *.
@@ -1956,8 +1885,8 @@ Proof.
     assert (Hwf' : wf_state (session_step st (r, hk)) = true) by (apply step_wf; assumption).
     destruct (IH _ Hwf' Hin) as (H1 & H2 & H3).
     split; [split; [apply step_ok_holds; assumption|exact H1]|]. split; [exact H2|].
-    intros Hl Hp Hq. inversion Hq; subst. cbn [snd] in *.
-    destruct (never_wedges st r hk Hl Hp H4) as [Hl' Hp']. apply H3; assumption.
+    intros Hl Hp.
+    destruct (never_wedges st r hk Hl Hp) as [Hl' Hp']. apply H3; assumption.
 Qed.
 
 (** what a hook returns with a plain [return] is ignored *)
@@ -1971,7 +1900,7 @@ Proof. reflexivity. Qed.
 Lemma returns_ignored v st rq hk r : handle v st rq (with_rets hk r) = handle v st rq hk.
 Proof. destruct rq; reflexivity. Qed.
 
-(** * Witnesses: the original code (V_orig) and the remaining findings (V_fixed) *)
+(** * Witnesses: the original code (V_orig), regression witnesses of the repaired findings (V_fixed) *)
 
 Lemma demo_wf : wf_state demo_state = true.
 Proof. vm_compute. reflexivity. Qed.
@@ -1989,11 +1918,10 @@ Definition updating_read : hook_oracle :=
           (mkActs (Some (5, [2])) None None None None None)
           (mkRets (RBytes (repeat 7 600)) RNone RNone RNone RNone RNone RNone RNone).
 
-(** original code: the lock stays held (a) when a user hook raises, (b) on Find By Type Value for a
-    characteristic-value type, (c) on Read By Group Type for a descriptor type *)
+(** original code: the lock stays held (a) on Find By Type Value for a characteristic-value type,
+    (b) on Read By Group Type for a descriptor type *)
 Lemma orig_wedges :
-  tx_locked (fst (server_step_v V_orig demo_state (Read 4) raising_read)) = true
-  /\ tx_locked (fst (server_step_v V_orig demo_state (FindByTypeValue 1 65535 10752 [104;105]) no_hooks)) = true
+  tx_locked (fst (server_step_v V_orig demo_state (FindByTypeValue 1 65535 10752 [104;105]) no_hooks)) = true
   /\ tx_locked (fst (server_step_v V_orig demo_state (ReadByGroupType 1 65535 10497) no_hooks)) = true.
 Proof. vm_compute. auto. Qed.
 
@@ -2006,53 +1934,61 @@ Lemma orig_unanswered :
      ReadByType128 1 65535 [0;1;2;3;4;5;6;7;8;9;10;11;12;13;14;15]].
 Proof. repeat constructor. Qed.
 
-(** repaired code, finding: a hook that raises something else than HookReturn* leaves the request
-    unanswered (the lock is released) *)
-Lemma raising_hook_unanswered :
-  wf_state demo_state = true /\ wf_request 23 (Read 4) = true /\ is_request (Read 4) = true
-  /\ snd (server_step demo_state (Read 4) raising_read) = []
+(** former findings, now repaired (regression witnesses) *)
+
+(** a hook that raises something else than HookReturn*: Unlikely Error, lock released *)
+Lemma raising_hook_answered :
+  snd (server_step demo_state (Read 4) raising_read) = [PError 10 4 14]
   /\ tx_locked (fst (server_step demo_state (Read 4) raising_read)) = false.
 Proof. vm_compute. auto. Qed.
 
-(** repaired code, finding: a 'written' hook raising a HookReturn* error produces a second PDU *)
-Lemma written_hook_two_pdus :
-  wf_state demo_state = true /\ wf_request 23 (Write 4 [1]) = true /\ hooks_behave written_authent = true
-  /\ snd (server_step demo_state (Write 4 [1]) written_authent) = [PWriteRsp; PError 18 4 5].
+(** a 'written' hook raising a HookReturn* error: the Write Response only, the value is written *)
+Lemma written_hook_one_pdu :
+  snd (server_step demo_state (Write 4 [1]) written_authent) = [PWriteRsp]
+  /\ val_at (fst (server_step demo_state (Write 4 [1]) written_authent)) 4 = [1].
 Proof. vm_compute. auto. Qed.
 
-(** finding: an opcode the ATT layer does not know is ignored, also when it is a request *)
-Lemma unknown_opcode_unanswered st op body : snd (server_step st (UnknownOp op body) no_hooks) = [].
-Proof. reflexivity. Qed.
+(** an opcode the ATT layer does not know: Request Not Supported when it is a request, nothing when
+    it is a command; a known request without parameters: Invalid PDU *)
+Lemma unknown_opcode_answered st body :
+  snd (server_step st (UnknownOp 32 body) no_hooks) = [PError 32 0 6]
+  /\ snd (server_step st (UnknownOp 96 body) no_hooks) = []
+  /\ snd (server_step st (UnknownOp 10 []) no_hooks) = [PError 10 0 4]
+  /\ snd (server_step st (ReadMultiple []) no_hooks) = [PError 14 0 4].
+Proof. repeat split; reflexivity. Qed.
 
-(** finding: the client subscribes (handle 7), the application changes the value while the
-    notification hook raises -- proclock keeps the procedure lock --, then a request whose read hook
-    updates that characteristic blocks for ever inside the handler: the server is wedged *)
+(** a Prepare Write Request on an attribute that is not a characteristic value is refused *)
+Lemma prepare_non_value_refused :
+  snd (server_step demo_state (PrepareWrite 7 0 [1; 0]) no_hooks) = [PError 22 7 6]
+  /\ snd (server_step demo_state (PrepareWrite 11 0 [1]) no_hooks) = [PError 22 11 3]
+  /\ snd (server_step demo_state (PrepareWrite 3 0 [1]) no_hooks) = [PError 22 3 3]
+  /\ snd (server_step demo_state (PrepareWrite 10 0 [1]) no_hooks) = [PPrepareWriteRsp 10 0 [1]].
+Proof. vm_compute. auto. Qed.
+
+(** the client subscribes (handle 7), the application changes the value while the notification hook
+    raises (the exception goes to the application, proclock releases its lock), then a request whose
+    read hook updates that characteristic: the notification goes out in the middle of the request,
+    before the response; the 600 bytes the hook returns are ignored; no lock is left held *)
 Definition wedge_history : list event :=
   [ EvReq (Write 7 [1; 0]) no_hooks; EvAppSet 5 [1] raising_notif; EvReq (Read 4) updating_read ].
 
-Lemma notif_hook_then_update_wedges :
-  wf_state demo_state = true /\ tx_locked demo_state = false /\ proc_free demo_state = true
-  /\ snd (run V_fixed demo_state wedge_history) = [ [PWriteRsp]; []; [] ]
-  /\ tx_locked (run_state V_fixed demo_state wedge_history) = true
-  /\ proc_free (run_state V_fixed demo_state [EvReq (Write 7 [1; 0]) no_hooks; EvAppSet 5 [1] raising_notif]) = false.
+Lemma notif_hook_then_update_ok :
+  snd (run V_fixed demo_state wedge_history) = [ [PWriteRsp]; []; [PNotification 6 [2]; PReadRsp [104; 105]] ]
+  /\ tx_locked (run_state V_fixed demo_state wedge_history) = false
+  /\ proc_free (run_state V_fixed demo_state wedge_history) = true.
 Proof. vm_compute. repeat split; reflexivity. Qed.
-
-(** the same request when the notification hook behaved: the notification goes out in the
-    middle of the request, before the response; the 600 bytes the hook returns are ignored *)
-Lemma update_inside_hook_ok :
-  snd (run V_fixed demo_state [EvReq (Write 7 [1; 0]) no_hooks; EvAppSet 5 [1] no_hooks; EvReq (Read 4) updating_read])
-  = [ [PWriteRsp]; [PNotification 6 [1]]; [PNotification 6 [2]; PReadRsp [104; 105]] ].
-Proof. vm_compute. reflexivity. Qed.
 
 (** non-vacuity of the session theorem *)
 Definition demo_session : session :=
   [ (ExchangeMtu 50, no_hooks); (FindInfo 1 65535, no_hooks); (Read 4, no_hooks); (ReadBlob 10 3, no_hooks);
     (Write 7 [1;0], no_hooks); (WriteCmd 4 [7;7], no_hooks); (PrepareWrite 10 0 [9], no_hooks);
     (ExecuteWrite 1, no_hooks); (ReadByGroupType 1 65535 10240, no_hooks); (Indication 4 [1], no_hooks);
-    (FindByTypeValue 1 65535 10752 [7;7], no_hooks); (Read 8, raising_read); (Read 4, updating_read) ].
+    (FindByTypeValue 1 65535 10752 [7;7], no_hooks); (Read 8, raising_read); (Read 4, updating_read);
+    (Read 4, raising_read); (Write 4 [1], written_authent); (UnknownOp 32 [1], no_hooks);
+    (PrepareWrite 7 0 [1;0], no_hooks) ].
 
-Lemma demo_session_inputs : inputs_ok demo_state demo_session /\ quiet_notif demo_session.
-Proof. split; [vm_compute; repeat split|repeat constructor]. Qed.
+Lemma demo_session_inputs : inputs_ok demo_state demo_session.
+Proof. vm_compute. repeat split. Qed.
 
 Lemma demo_session_outputs :
   snd (run V_fixed demo_state (map (fun x => EvReq (fst x) (snd x)) demo_session))
@@ -2060,37 +1996,18 @@ Lemma demo_session_outputs :
       [PFindInfoRsp 1 [(1,[0;40]); (2,[2;40]); (3,[3;40]); (4,[0;42]); (5,[3;40]); (6,[25;42]); (7,[2;41]); (8,[1;40]); (9,[3;40]); (10,[1;42]); (11,[1;41])]];
       [PReadRsp [104;105]]; [PError 12 10 2]; [PWriteRsp]; []; [PPrepareWriteRsp 10 0 [9]];
       [PExecuteWriteRsp]; [PReadByGroupTypeRsp 6 [(1,7,[0;24])]]; [PConfirmation];
-      [PFindByTypeValueRsp [(4,4)]]; [PReadRsp [15;24]]; [PNotification 6 [2]; PReadRsp [7;7]] ].
+      [PFindByTypeValueRsp [(4,4)]]; [PReadRsp [15;24]]; [PNotification 6 [2]; PReadRsp [7;7]];
+      [PError 10 4 14]; [PWriteRsp]; [PError 32 0 6]; [PError 22 7 6] ].
 Proof. vm_compute. reflexivity. Qed.
 
 (** the witnesses in the shape of the property theorems *)
-Lemma never_wedges_refuted :
-  exists st evs, wf_state st = true /\ tx_locked st = false /\ proc_free st = true
-    /\ snd (run V_fixed st evs) = [ [PWriteRsp]; []; [] ]
-    /\ tx_locked (run_state V_fixed st evs) = true.
-Proof.
-  exists demo_state, wedge_history.
-  destruct notif_hook_then_update_wedges as (H1 & H2 & H3 & H4 & H5 & _).
-  repeat split; assumption.
-Qed.
-
-Lemma raising_hook_refuted :
-  exists st r hk, wf_state st = true /\ wf_request 23 r = true /\ is_request r = true
-    /\ snd (server_step st r hk) = [] /\ tx_locked (fst (server_step st r hk)) = false.
-Proof. exists demo_state, (Read 4), raising_read. exact raising_hook_unanswered. Qed.
-
-Lemma written_hook_refuted :
-  exists st r hk, wf_state st = true /\ wf_request 23 r = true /\ hooks_behave hk = true
-    /\ snd (server_step st r hk) = [PWriteRsp; PError 18 4 5].
-Proof. exists demo_state, (Write 4 [1]), written_authent. exact written_hook_two_pdus. Qed.
-
 Lemma nonvacuous :
   wf_state demo_state = true /\ tx_locked demo_state = false /\ proc_free demo_state = true
-  /\ inputs_ok demo_state demo_session /\ quiet_notif demo_session
-  /\ nth 12 (snd (run V_fixed demo_state (map (fun x => EvReq (fst x) (snd x)) demo_session))) []
-     = [PNotification 6 [2]; PReadRsp [7; 7]].
+  /\ inputs_ok demo_state demo_session
+  /\ skipn 12 (snd (run V_fixed demo_state (map (fun x => EvReq (fst x) (snd x)) demo_session)))
+     = [ [PNotification 6 [2]; PReadRsp [7; 7]]; [PError 10 4 14]; [PWriteRsp]; [PError 32 0 6]; [PError 22 7 6] ].
 Proof.
   split; [exact demo_wf|]. split; [reflexivity|]. split; [reflexivity|].
-  split; [exact (proj1 demo_session_inputs)|]. split; [exact (proj2 demo_session_inputs)|].
+  split; [exact demo_session_inputs|].
   rewrite demo_session_outputs. reflexivity.
 Qed.
